@@ -30,10 +30,13 @@ const (
 	oNotify
 	oDeliver
 	oPushPull
+	// oUpdate: memberlist reports a metadata update of B to observer A (only
+	// while A holds B alive at the memberlist level, as memberlist does)
+	oUpdate
 	numC02Ops
 )
 
-var c02OpNames = []string{"up", "leave", "crash", "forceleave", "notify", "deliver", "pushpull"}
+var c02OpNames = []string{"up", "leave", "crash", "forceleave", "notify", "deliver", "pushpull", "update"}
 
 type c02Op struct {
 	K int `json:"k"`
@@ -51,7 +54,7 @@ type c02Case struct {
 func genC02(t *rapid.T) c02Case {
 	c := c02Case{N: rapid.IntRange(2, 4).Draw(t, "n"), Formed: rapid.IntRange(0, 3).Draw(t, "formed") != 0}
 	n := rapid.IntRange(1, 40).Draw(t, "nops")
-	kinds := []int{oUp, oUp, oLeave, oCrash, oForceLeave, oNotify, oNotify, oNotify, oDeliver, oDeliver, oDeliver, oDeliver, oPushPull, oPushPull}
+	kinds := []int{oUp, oUp, oLeave, oCrash, oForceLeave, oNotify, oNotify, oNotify, oDeliver, oDeliver, oDeliver, oDeliver, oPushPull, oPushPull, oUpdate}
 	for i := 0; i < n; i++ {
 		c.Ops = append(c.Ops, c02Op{
 			K: rapid.SampledFrom(kinds).Draw(t, "k"),
@@ -67,7 +70,7 @@ func genC02(t *rapid.T) c02Case {
 		m := rapid.IntRange(0, c.N-1).Draw(t, "motif-member")
 		r := rapid.IntRange(0, c.N-1).Draw(t, "motif-observer")
 		var story []c02Op
-		switch rapid.IntRange(0, 3).Draw(t, "motif") {
+		switch rapid.IntRange(0, 4).Draw(t, "motif") {
 		case 0: // goes down, observer is told, comes back (with or without a join intent), leaves, observer hears the leave
 			down := rapid.SampledFrom([]int{oCrash, oLeave}).Draw(t, "motif-down")
 			intent := rapid.SampledFrom([]int{0, 3}).Draw(t, "motif-intent")
@@ -79,6 +82,8 @@ func genC02(t *rapid.T) c02Case {
 		case 2: // leave heard by one, state sync to another, the other hears the leave late
 			story = []c02Op{{K: oLeave, A: m}, {K: oDeliver, A: r, B: 3, I: 0}, {K: oPushPull, A: r, B: (r + 1) % c.N},
 				{K: oDeliver, A: (r + 1) % c.N, B: 3, I: 0}, {K: oNotify, A: r, B: m}}
+		case 3: // leave heard by the observer, then a late metadata update of the leaver, then the death notice
+			story = []c02Op{{K: oLeave, A: m}, {K: oDeliver, A: r, B: 3, I: 0}, {K: oUpdate, A: r, B: m}, {K: oNotify, A: r, B: m}}
 		default: // leave, return, stale leave delivered after the return
 			story = []c02Op{{K: oLeave, A: m}, {K: oUp, A: m, B: r}, {K: oNotify, A: r, B: m}, {K: oNotify, A: r, B: m},
 				{K: oDeliver, A: r, B: 3, I: 1}, {K: oDeliver, A: r, B: 3, I: 0}}
@@ -134,8 +139,22 @@ type c02World struct {
 	// after which the leave intent itself is stale at the receiver; such a
 	// replica is not a witness for the own-leave rule.
 	mergedSince map[string]map[string]bool
-	mon       *vkit.Monitor
-	labels    map[string]int
+	mon         *vkit.Monitor
+	labels      map[string]int
+	// applied: instance|member -> newest intent LTime the harness itself has
+	// handed to that instance about that member - by gossip or conveyed by a
+	// push/pull, while the member was known there or before (an intent about
+	// a member not yet known is buffered, the newest one wins, and becomes the
+	// member's status time when memberlist announces it). Independent of the
+	// implementation's own bookkeeping.
+	applied map[string]serf.LamportTime
+	// failed: a violation has been reported from inside a helper; the body
+	// stops at the next step boundary
+	failed bool
+}
+
+func (w *c02World) akey(r *replica, member string) string {
+	return fmt.Sprintf("%s#%d|%s", r.name, lives(w.events[r.idx]), member)
 }
 
 // lives counts how often a member was started. With restarts an accepted leave
@@ -260,6 +279,9 @@ func status(r *replica, name string) (serf.MemberStatus, bool) {
 // invariants checks, for every running replica and member, that the recorded
 // status time never decreased.
 func (w *c02World) invariants(after string) bool {
+	if w.failed {
+		return false
+	}
 	for _, r := range w.reps {
 		if !r.up {
 			continue
@@ -363,8 +385,24 @@ func (w *c02World) mergeInto(r *replica, state []byte, join bool) {
 	var pp serf.VerifMessagePushPull
 	selfClaim := serf.LamportTime(0)
 	expectRefute := false
+	// A push/pull conveys one artificial intent per member of the sender's view:
+	// a leave at status time + 1 for the members on its left list, a join at the
+	// status time for the others. The step rule of the statement holds for them
+	// as for gossiped intents: one that is not newer than what this instance has
+	// already applied (or been handed) must not change the member's status.
+	type conveyed struct {
+		name   string
+		ltime  serf.LamportTime
+		leave  bool
+		known  bool
+		before serf.MemberStatus
+		bound  serf.LamportTime
+	}
+	var conv []conveyed
 	if serf.VerifDecodeMessage(state[1:], &pp) == nil {
+		left := map[string]bool{}
 		for _, name := range pp.LeftMembers {
+			left[name] = true
 			if name == r.name {
 				claim := pp.StatusLTimes[name] + 1
 				if lt, ok := r.n.Serf.VerifStatusLTime(r.name); ok && claim > lt && r.n.Serf.State() == serf.SerfAlive {
@@ -372,17 +410,51 @@ func (w *c02World) mergeInto(r *replica, state []byte, join bool) {
 				}
 			}
 		}
+		var names []string
+		for name := range pp.StatusLTimes {
+			names = append(names, name)
+		}
+		sort.Strings(names)
+		for _, name := range names {
+			cv := conveyed{name: name, ltime: pp.StatusLTimes[name], leave: left[name]}
+			if cv.leave {
+				cv.ltime++
+			}
+			cv.before, cv.known = status(r, name)
+			cv.bound, _ = r.n.Serf.VerifStatusLTime(name)
+			if a := w.applied[w.akey(r, name)]; a > cv.bound {
+				cv.bound = a
+			}
+			conv = append(conv, cv)
+		}
 	}
 	r.n.Delegate.MergeRemoteState(state, join)
 	if expectRefute {
 		w.labels["refute-via-pushpull"]++
 		w.waitRefute(r, selfClaim)
 	}
+	for _, cv := range conv {
+		k := w.akey(r, cv.name)
+		if cv.ltime > w.applied[k] {
+			w.applied[k] = cv.ltime
+		}
+		if !cv.known || cv.ltime > cv.bound {
+			continue
+		}
+		after, _ := status(r, cv.name)
+		if after != cv.before && !w.failed {
+			w.failed = true
+			w.x.Violationf("stale-sync-intent-changed-status", "push/pull into %s: the state conveys %s (leave=%v) at Lamport time %d, not newer than the %d already applied there, yet the status changed %v -> %v",
+				r.name, cv.name, cv.leave, cv.ltime, cv.bound, cv.before, after)
+			return
+		}
+		w.labels["stale-sync-intent"]++
+	}
 }
 
 func bodyC02(c c02Case, x *vkit.Ctx) {
 	w := &c02World{x: x, poolSeen: map[string]bool{}, maxJoin: map[string]serf.LamportTime{}, leaveSent: map[string]bool{}, labels: map[string]int{},
-		claims: map[string]int{}, ownLeave: map[string]string{}, ownLeaveSeenBy: map[string]map[string]bool{}, mergedSince: map[string]map[string]bool{}}
+		applied: map[string]serf.LamportTime{}, claims: map[string]int{}, ownLeave: map[string]string{}, ownLeaveSeenBy: map[string]map[string]bool{}, mergedSince: map[string]map[string]bool{}}
 	w.events = make([][]lifeEvent, c.N)
 	for i := 0; i < c.N; i++ {
 		w.reps = append(w.reps, &replica{idx: i, name: rname(i), prog: make([]int, c.N)})
@@ -462,7 +534,7 @@ func bodyC02(c c02Case, x *vkit.Ctx) {
 	outOfOrder, dupDeliveries := 0, 0
 	delivered := map[string]serf.LamportTime{} // replica|node -> max LTime delivered by gossip
 	deliveredRaw := map[string]bool{}
-	applied := map[string]serf.LamportTime{} // instance|member -> newest intent LTime delivered while the member was known
+	applied := w.applied
 
 	for oi, op := range c.Ops {
 		a := w.reps[op.A%c.N]
@@ -604,11 +676,14 @@ func bodyC02(c c02Case, x *vkit.Ctx) {
 			}
 			// independent of the implementation's own bookkeeping: the newest intent
 			// about this member the harness itself has handed to this instance
-			akey := fmt.Sprintf("%s#%d|%s", a.name, lives(w.events[a.idx]), it.node)
+			akey := w.akey(a, it.node)
 			if known && applied[akey] > ltBefore {
 				ltBefore = applied[akey]
 			}
-			if known && it.ltime > applied[akey] {
+			if !known {
+				w.labels["intent-for-unknown-member"]++
+			}
+			if it.ltime > applied[akey] {
 				applied[akey] = it.ltime
 			}
 			if known && it.ltime <= ltBefore {
@@ -628,6 +703,23 @@ func bodyC02(c c02Case, x *vkit.Ctx) {
 			w.pushPull(a, b, false)
 			w.collectAll()
 			w.labels["pushpull"]++
+		case oUpdate:
+			// memberlist reports a changed metadata only for a node it holds alive
+			p := a.prog[b.idx]
+			if !a.up || a == b || p == 0 || !w.events[b.idx][p-1].up {
+				continue
+			}
+			stBefore, known := status(a, b.name)
+			ltBefore, _ := a.n.Serf.VerifStatusLTime(b.name)
+			a.n.EventsD.NotifyUpdate(node.MLNode(b.name, fmt.Sprintf("127.0.9.%d", b.idx+1), 7946, nil, 5, 5))
+			stAfter, knownAfter := status(a, b.name)
+			ltAfter, _ := a.n.Serf.VerifStatusLTime(b.name)
+			if known != knownAfter || stBefore != stAfter || ltBefore != ltAfter {
+				x.Violationf("metadata-update-changed-status", "%s: a metadata update is no intent, yet %s's record of %s went from %v (known=%v, status time %d) to %v (known=%v, status time %d)",
+					desc, a.name, b.name, stBefore, known, ltBefore, stAfter, knownAfter, ltAfter)
+				return
+			}
+			w.labels["metadata-update-"+stBefore.String()]++
 		}
 		if !w.invariants(desc) {
 			return
@@ -710,7 +802,8 @@ func bodyC02(c c02Case, x *vkit.Ctx) {
 			// itself never refuted (m's own status time is not newer than q's) —
 			// push/pull hands q's status time to m as a *join* intent, so m adopts
 			// the time without refuting and nothing ever repairs q.
-			if m.up && len(views[serf.StatusAlive])+len(views[serf.StatusLeaving]) == n && len(views[serf.StatusLeaving]) > 0 {
+			// (a leave or force-leave must have been issued about m at some point: without any claim nobody can hold m as leaving)
+			if m.up && w.claims[m.name] > 0 && len(views[serf.StatusAlive])+len(views[serf.StatusLeaving]) == n && len(views[serf.StatusLeaving]) > 0 {
 				own, _ := m.n.Serf.VerifStatusLTime(m.name)
 				unrefuted := true
 				for _, r := range w.reps {
